@@ -188,7 +188,191 @@ def diffTrim (a b : List Line) : List Hunk :=
        new := ⟨if adds = [] then pre else pre + 1, adds.length⟩,
        lines := dels.map (⟨MINUS, ·⟩) ++ adds.map (⟨PLUS, ·⟩) }]
 
+theorem cpl_le : ∀ (a b : List Line), commonPrefixLen a b ≤ a.length ∧ commonPrefixLen a b ≤ b.length
+  | [], _ => by simp [commonPrefixLen]
+  | _ :: _, [] => by simp [commonPrefixLen]
+  | x :: as, y :: bs => by
+    have := cpl_le as bs
+    simp only [commonPrefixLen]
+    split <;> simp <;> omega
+
+theorem cpl_take : ∀ (a b : List Line), a.take (commonPrefixLen a b) = b.take (commonPrefixLen a b)
+  | [], _ => by simp [commonPrefixLen]
+  | _ :: _, [] => by simp [commonPrefixLen]
+  | x :: as, y :: bs => by
+    have := cpl_take as bs
+    simp only [commonPrefixLen]
+    split
+    · next h => simp [h, this]
+    · simp
+
+theorem oldOf_dels_adds (D A : List Line) :
+    oldOf (D.map (⟨MINUS, ·⟩) ++ A.map (⟨PLUS, ·⟩)) = D := by
+  induction D with
+  | nil =>
+    induction A with
+    | nil => rfl
+    | cons x A ih => simp [oldOf]
+  | cons x D ih => simp only [List.map_cons, List.cons_append]; rw [oldOf_cons_minus rfl, ih]
+
+theorem newOf_dels_adds (D A : List Line) :
+    newOf (D.map (⟨MINUS, ·⟩) ++ A.map (⟨PLUS, ·⟩)) = A := by
+  induction D with
+  | nil =>
+    induction A with
+    | nil => rfl
+    | cons x A ih => simp only [List.map_cons, List.map_nil, List.nil_append] at ih ⊢; rw [newOf_cons_plus rfl, ih]
+  | cons x D ih => simp only [List.map_cons, List.cons_append]; rw [newOf_cons_minus rfl, ih]
+
+theorem opsOK_dels_adds (D A : List Line) : OpsOK (D.map (⟨MINUS, ·⟩) ++ A.map (⟨PLUS, ·⟩)) := by
+  intro pl hpl
+  rcases List.mem_append.1 hpl with h | h
+  · obtain ⟨_, _, rfl⟩ := List.mem_map.1 h; right; right; rfl
+  · obtain ⟨_, _, rfl⟩ := List.mem_map.1 h; right; left; rfl
+
+theorem valid_single (a P D A S : List Line) (ha : a = P ++ D ++ S)
+    (hex : ¬ (D = [] ∧ P = [] ∧ a ≠ [])) :
+    let h : Hunk := { old := ⟨if D = [] then P.length else P.length + 1, D.length⟩,
+                      new := ⟨if A = [] then P.length else P.length + 1, A.length⟩,
+                      lines := D.map (⟨MINUS, ·⟩) ++ A.map (⟨PLUS, ·⟩) }
+    Valid a 0 0 [h] ∧ splice a 0 [h] = P ++ A ++ S := by
+  intro h
+  have ho : oldOf h.lines = D := oldOf_dels_adds D A
+  have hn : newOf h.lines = A := newOf_dels_adds D A
+  have hpos : h.pos0 = (P.length : Int) := by
+    show (if ((D.length : Nat) : Int) = 0 then (if D = [] then (P.length : Int) else P.length + 1) + 1
+      else (if D = [] then (P.length : Int) else P.length + 1)) - 1 = _
+    cases D <;> simp <;> omega
+  have hnpos : h.newPos0 = (P.length : Int) := by
+    show (if ((A.length : Nat) : Int) = 0 then (if A = [] then (P.length : Int) else P.length + 1) + 1
+      else (if A = [] then (P.length : Int) else P.length + 1)) - 1 = _
+    cases A <;> simp <;> omega
+  constructor
+  · refine Valid.cons 0 0 h [] P.length ⟨opsOK_dels_adds D A, by rw [ho], by rw [hn]⟩ hpos (Nat.zero_le _)
+      ?_ ?_ (by rw [hnpos]; omega) ?_ (Valid.nil _ _ ?_)
+    · rw [ho, ha, List.append_assoc, List.drop_left, List.take_left]
+    · rw [ho, ha]; simp
+    · intro ⟨h1, h2, h3⟩
+      have hD : D = [] := by
+        have : ((D.length : Nat) : Int) = 0 := h1
+        exact List.length_eq_zero_iff.1 (by omega)
+      have : (if D = [] then (P.length : Int) else P.length + 1) = 0 := h2
+      rw [if_pos hD] at this
+      exact hex ⟨hD, List.length_eq_zero_iff.1 (by omega), h3⟩
+    · rw [ho, ha]; simp
+  · have hp0 : h.pos0.toNat = P.length := by rw [hpos]; simp
+    simp only [splice, hp0, ho, hn]
+    rw [ha]
+    simp [List.append_assoc]
+
+theorem oldOf_adds_ctx (first : Line) (A : List Line) :
+    oldOf (A.map (⟨PLUS, ·⟩) ++ [⟨SP, first⟩]) = [first] := by
+  induction A with
+  | nil => rfl
+  | cons x A ih => simp only [List.map_cons, List.cons_append]; rw [oldOf_cons_plus rfl, ih]
+
+theorem newOf_adds_ctx (first : Line) (A : List Line) :
+    newOf (A.map (⟨PLUS, ·⟩) ++ [⟨SP, first⟩]) = A ++ [first] := by
+  induction A with
+  | nil => rfl
+  | cons x A ih => simp only [List.map_cons, List.cons_append]; rw [newOf_cons_plus rfl, ih]
+
+theorem valid_top (first : Line) (t A : List Line) :
+    let h : Hunk := { old := ⟨1, 1⟩, new := ⟨1, A.length + 1⟩,
+                      lines := A.map (⟨PLUS, ·⟩) ++ [⟨SP, first⟩] }
+    Valid (first :: t) 0 0 [h] ∧ splice (first :: t) 0 [h] = A ++ first :: t := by
+  intro h
+  have ho : oldOf h.lines = [first] := oldOf_adds_ctx first A
+  have hn : newOf h.lines = A ++ [first] := newOf_adds_ctx first A
+  have hops : OpsOK h.lines := by
+    intro pl hpl
+    rcases List.mem_append.1 hpl with h | h
+    · obtain ⟨_, _, rfl⟩ := List.mem_map.1 h; right; left; rfl
+    · rw [List.mem_singleton.1 h]; left; rfl
+  have hpos : h.pos0 = ((0 : Nat) : Int) := rfl
+  have hnpos : h.newPos0 = 0 := by
+    show (if (A.length : Int) + 1 = 0 then (1 : Int) + 1 else 1) - 1 = 0
+    rw [if_neg (by omega)]; rfl
+  constructor
+  · refine Valid.cons 0 0 h [] 0 ⟨hops, by rw [ho]; rfl, by rw [hn]; simp; rfl⟩ hpos (Nat.le_refl _)
+      ?_ ?_ (by rw [hnpos]; rfl) ?_ (Valid.nil _ _ ?_)
+    · rw [ho]; rfl
+    · rw [ho]; simp
+    · intro ⟨h1, _, _⟩
+      have : (1 : Int) = 0 := h1
+      omega
+    · rw [ho]; simp
+  · have hp0 : h.pos0.toNat = 0 := rfl
+    simp only [splice, hp0, ho, hn]
+    simp
+
+/-- the hunk list of `diffTrim` as a function of the trimmed pieces -/
+def trimCore (a : List Line) (pre : Nat) (dels adds : List Line) : List Hunk :=
+  if pre = 0 ∧ dels = [] ∧ a ≠ [] then
+    match a with
+    | first :: _ =>
+      [{ old := ⟨1, 1⟩, new := ⟨1, adds.length + 1⟩,
+         lines := adds.map (⟨PLUS, ·⟩) ++ [⟨SP, first⟩] }]
+    | [] => []
+  else
+    [{ old := ⟨if dels = [] then pre else pre + 1, dels.length⟩,
+       new := ⟨if adds = [] then pre else pre + 1, adds.length⟩,
+       lines := dels.map (⟨MINUS, ·⟩) ++ adds.map (⟨PLUS, ·⟩) }]
+
+theorem trimCore_valid (a b P D A S : List Line) (ha : a = P ++ D ++ S) (hb : b = P ++ A ++ S) :
+    Valid a 0 0 (trimCore a P.length D A) ∧ splice a 0 (trimCore a P.length D A) = b := by
+  unfold trimCore
+  split
+  · next hc =>
+    obtain ⟨hP, hD, hne⟩ := hc
+    have hP' : P = [] := List.length_eq_zero_iff.1 hP
+    subst hP' hD
+    simp only [List.nil_append, List.append_nil] at ha hb
+    subst ha
+    cases a with
+    | nil => exact absurd rfl hne
+    | cons first t =>
+      simp only []
+      rw [hb]
+      exact valid_top first t A
+  · next hc =>
+    rw [hb]
+    exact valid_single a P D A S ha (fun ⟨h1, h2, h3⟩ => hc ⟨by rw [h2]; rfl, h1, h3⟩)
+
+/-- both files are `common prefix ++ middle ++ common suffix` -/
+theorem trim_shape (a b : List Line) :
+    let pre := commonPrefixLen a b
+    let a' := a.drop pre
+    let b' := b.drop pre
+    let suf := commonPrefixLen a'.reverse b'.reverse
+    ∃ P S : List Line, P.length = pre ∧
+      a = P ++ a'.take (a'.length - suf) ++ S ∧
+      b = P ++ b'.take (b'.length - suf) ++ S := by
+  intro pre a' b' suf
+  have hle := cpl_le a b
+  have hP : a.take pre = b.take pre := cpl_take a b
+  have hS : a'.drop (a'.length - suf) = b'.drop (b'.length - suf) := by
+    have := cpl_take a'.reverse b'.reverse
+    rw [List.take_reverse, List.take_reverse] at this
+    exact List.reverse_inj.1 this
+  refine ⟨a.take pre, a'.drop (a'.length - suf), by rw [List.length_take]; omega, ?_, ?_⟩
+  · rw [List.append_assoc, List.take_append_drop, List.take_append_drop]
+  · rw [hS, hP, List.append_assoc, List.take_append_drop, List.take_append_drop]
+
 theorem diffTrim_valid (a b : List Line) : Valid a 0 0 (diffTrim a b) ∧ splice a 0 (diffTrim a b) = b := by
-  sorry
+  by_cases hab : a = b
+  · simp only [diffTrim, if_pos hab]
+    exact ⟨Valid.nil _ _ (Nat.zero_le _), by simp [splice, hab]⟩
+  · have e : diffTrim a b = trimCore a (commonPrefixLen a b)
+        ((a.drop (commonPrefixLen a b)).take ((a.drop (commonPrefixLen a b)).length -
+          commonPrefixLen (a.drop (commonPrefixLen a b)).reverse (b.drop (commonPrefixLen a b)).reverse))
+        ((b.drop (commonPrefixLen a b)).take ((b.drop (commonPrefixLen a b)).length -
+          commonPrefixLen (a.drop (commonPrefixLen a b)).reverse (b.drop (commonPrefixLen a b)).reverse)) := by
+      simp only [diffTrim, if_neg hab, trimCore]
+    rw [e]
+    obtain ⟨P, S, hl, ha, hb⟩ := trim_shape a b
+    have key := trimCore_valid a b P _ _ S ha hb
+    rw [hl] at key
+    exact key
 
 end PatchModel.C01
